@@ -222,7 +222,8 @@ class SeriesContainer:
                 self.detected_ndim = len(self.series[0, 0])
             else:
                 self.detected_ndim = 1
-        elif type(series) in [set, tuple, list]:
+        elif isinstance(series, (set, tuple, list)):
+            # (also subclasses of these types: the C code needs the series in a plain list)
             self.series = list(series)
             if np is not None and isinstance(self.series[0], np.ndarray):
                 if self.series[0].ndim > 1:
